@@ -21,6 +21,56 @@ def gen_msg(rng):
     return " ".join(f)
 
 
+def chain_programs(rng, n):
+    progs = []
+    for _ in range(n):
+        p, mid = ["reset"], 0
+        for _ in range(rng.choice([2, 3, 5, 8])):
+            mid += rng.choice([1, 1, 2, 255, 256, 65537, 2**40, 2**56 + 3])
+            p.append("add " + gs.spec(gs.gen_msgs(rng, mid)))
+            if rng.random() < 0.3:
+                p.append("dump")
+        p.append("dump")
+        progs.append(p)
+    return progs
+
+
+def judge_chain(prog, outs):
+    """after adds only: every stored batch names its successor, the last one 2^64-1 (as the real decoder reads it)"""
+    ids = [0] + [int(o.split()[3]) for o in prog if o.startswith("add ")]
+    seen = 1
+    for o, g in zip(prog, outs):
+        if o.startswith("add "):
+            seen += 1
+        if o == "dump":
+            want = " ".join("%d:%d" % (a, b) for a, b in zip(ids[:seen], ids[1:seen] + [gs.U64]))
+            got = g.split(" | ")[0]
+            if got != want:
+                return "after %d Adds the database holds (id:NextID) %s, the chain written is %s" % (seen - 1, got[:200], want[:200])
+    return None
+
+
+def chain_stage(run, exe):
+    progs = chain_programs(run.rng, 40 if run.tier == "quick" else 1500)
+    ops = [o for p in progs for o in p]
+    d = vlib.workdir("c18chain")
+    gl, ll, di, err = vlib.differential(run, "chain", ops, exe, "stream", env_extra={"VERIF_TMP": d})
+    import shutil
+    shutil.rmtree(d, ignore_errors=True)
+    ok = di is None and err is None and len(gl) == len(ops)
+    bad, bops, pos = None, [], 0
+    for p in progs:
+        g = gl[pos:pos + len(p)]
+        pos += len(p)
+        if len(g) == len(p) and bad is None:
+            b = judge_chain(p, g)
+            if b:
+                bad, bops = b, p
+    run.obligation("stored chain: %d Add sequences written to LevelDB and read back by the decoder (id:NextID of every stored batch) == Lean model == the chain written" % len(progs),
+                   ok and bad is None, err or bad or ("first difference at `%s`: go=%s lean=%s" % (ops[di][:80], gl[di][:120] if di < len(gl) else "<missing>", ll[di][:120] if di < len(ll) else "<missing>") if di is not None else ""))
+    return bad, bops, len(ops)
+
+
 def check(run):
     n = 1500 if run.tier == "quick" else 60000
     proved = run.prove()
@@ -82,9 +132,24 @@ def check(run):
         nontrivial.add(op)
     corr_ok = bad is None and err is None and len(gl) == len(ops)
     run.obligation("correspondence: Go codecs == Lean model and == what was written, on %d ops" % len(ops), corr_ok, err or (bad[1] if bad else ""))
+    # the stored chain: what Add writes to the database (the new batch and the re-written NextID of its predecessor) read
+    # back by the decoder — a writer/reader pair that only exists on the Add path
+    cbad, cops, cn = chain_stage(run, exe)
+    # the raft log store's writer/reader pairs (JSON and protobuf envelopes, both readers, ConvertToProto on mixed stores)
+    import C09
+    sok, scorr, sbad, sops, sdi, _ = C09.store_stage(run, 40 if run.tier == "quick" else 800, 30, 0, "raft log entries: writers (StoreLogs, StoreLogProto, ConvertToProto on mixed JSON/protobuf stores) x readers (GetLog, raw)")
     if bad is not None:
         i, why = bad
         run.violation("roundtrip:" + ops[i].split()[0], why, {"kind": "codec", "op": ops[i], "go": gl[i] if i < len(gl) else None, "why": why}, True)
+    elif cbad is not None:
+        run.violation("roundtrip:chain", cbad, {"kind": "chain", "ops": cops, "why": cbad}, True)
+        corr_ok = False
+    elif sbad is not None:
+        run.violation("roundtrip:store:" + sbad[0].split(" ")[0], sbad[0], {"kind": "store", "ops": sbad[1], "why": sbad[0]}, True)
+        corr_ok = False
+    elif sok and not scorr:
+        run.violation("broken:store-correspondence", "the raft log store's codecs no longer behave like the model", {"kind": "store", "ops": sops[:sdi + 1][-40:] if sdi is not None else []}, False)
+        corr_ok = False
     elif not proved or not corr_ok:
         failed = [o[0] for o in run.failed_obligations()]
         run.violation("broken:" + (failed[0] if failed else "?")[:40], "proof or correspondence no longer checks: %s" % failed, {"broken": failed, "detail": [o[2][-1500:] for o in run.failed_obligations()]}, False)
@@ -101,6 +166,18 @@ def replay(run, path):
     r = json.load(open(path))
     op = r.get("replay", {}).get("op")
     ok, exe, out = vlib.build_harness("outputstream", "internal/outputstream", HARNESS)
+    if r.get("replay", {}).get("kind") == "store":
+        import C09
+        return C09.replay(run, path)
+    if r.get("replay", {}).get("kind") == "chain":
+        ops = r["replay"]["ops"]
+        d = vlib.workdir("c18chainr")
+        gl, ll, di, err = vlib.differential(run, "replay", ops, exe, "stream", env_extra={"VERIF_TMP": d})
+        for o, g in zip(ops, gl):
+            print(o[:60], "->", g[:200])
+        b = judge_chain(ops, gl)
+        print("oracle:", b)
+        return 1 if b else 0
     gl, ll, di, err = vlib.differential(run, "replay", [op], exe, "codec")
     print("op:  ", op, "\ngo:  ", gl, "\nlean:", ll)
     return 0 if di is None else 1
